@@ -8,11 +8,13 @@ CLAIM = ('Two real CCoinsViewCache layers (coins.cpp, libstdc++ unordered_map, f
 LINK = ['coins.cpp', 'primitives/transaction.cpp', 'script/script.cpp', 'uint256.cpp', 'hash.cpp']
 OPS = dict(ADD=1, ADDOW=2, SPEND=3, GET=4, FLUSH=5, SYNC=6, PFLUSH=7, UNCACHE=8, PADD=9, PSPEND=10, ACCESS=11, PSYNC=12)
 def seq(present, *ops):
-    d = {'PRESENT': present}
-    for i, o in enumerate(ops, 1):
+    """(entry name, template args): PRESENT, then five (OP, K) pairs"""
+    pairs = []; names = []
+    for o in ops:
         name, k = (o.split(':') + ['0'])[:2]
-        d['OP%d' % i] = OPS[name]; d['K%d' % i] = int(k)
-    return d
+        pairs.append((OPS[name], int(k))); names.append(name.lower() + (k if ':' in o else ''))
+    while len(pairs) < 5: pairs.append((0, 0))
+    return ('p%d_%s' % (present, '_'.join(names)), ', '.join([str(present)] + ['%d, %d' % p for p in pairs]))
 QUICK = [
     seq(1, 'GET:0', 'SPEND:0', 'FLUSH', 'PFLUSH'),                 # spend a base coin through both layers
     seq(0, 'ADD:0', 'GET:0', 'FLUSH', 'PFLUSH'),                   # create through both layers
@@ -28,7 +30,7 @@ QUICK = [
     seq(1, 'ACCESS:0', 'ADDOW:0', 'SYNC', 'PSYNC', 'GET:0'),
 ]
 HARNESSES = [
-    H('layers', 'layers.cpp', 'h_layers', link=LINK, variants=QUICK, shadow=['nofmt', 'nopool'], unwind=20, memunwind=112, timeout=600, objbits=11,
+    H('layers', 'layers.cpp', 'h_layers', link=LINK, entries=QUICK, shadow=['nofmt', 'nopool'], unwind=20, memunwind=112, timeout=600, objbits=11,
       functions=['CCoinsViewCache::FetchCoin/GetCoin/PeekCoin/HaveCoin/AccessCoin/AddCoin/SpendCoin/Uncache/BatchWrite/Flush/Sync/SanityCheck (coins.cpp)', 'CCoinsCacheEntry flag list (coins.h)', 'CoinsViewCacheCursor (coins.h)',
                  'std::unordered_map<COutPoint, CCoinsCacheEntry, SaltedCoinsCacheHasher> (libstdc++ headers; real SipHash-1-3 on concrete keys)'],
       stubs=['PoolAllocator forwards to operator new (ref/nopool shadow of support/allocators/pool.h; PoolResource is C61)', 'tinyformat -> empty strings', 'FastRandomContext/ChaCha20 nondeterministic (unused: deterministic hasher keys)',
